@@ -265,8 +265,9 @@ class ZorgFileCompiler(ZorgFileListener):
     def enterSpace_atom(
         self, ctx: ZorgFileParser.Space_atomContext
     ) -> None:  # noqa: D102
-        del ctx
-        if self._s.in_note:
+        # An extra blank (e.g. two blanks after the note's prefix) yields an
+        # empty atom, which is not a word of the note.
+        if self._s.in_note and ctx.getText().strip() != "":
             self._s.atoms_in_note += 1
 
     def enterTodo(self, ctx: ZorgFileParser.TodoContext) -> None:  # noqa: D102
